@@ -15,6 +15,7 @@ standardization target and stabilized or unstabilized weights.
 -/
 import ZepidVerif.Lemmas.Ipw
 import ZepidVerif.Lemmas.Aipw
+import ZepidVerif.Lemmas.GFormula
 import Mathlib.Algebra.Order.Field.Rat
 import Mathlib.Tactic.NormNum
 set_option linter.unusedSectionVars false
@@ -32,8 +33,8 @@ theorem iptw_saturated (l : List (Row F)) (S : List Nat) (hS : Strata l S) (hpos
     (stab : Bool) (t : Tgt) (a : Bool) (n : F) (hn0 : n ≠ 0) (hn1 : n ≠ 1)
     (p : Nat → F) (hp : PropFit l S p) (q : Nat → Bool → F) (hq : MissFit l S q)
     (mnum : Bool → F) (hm : mnum a ≠ 0) :
-    hajek l (iptwOmega stab t (fun _ => n) (fun r => p r.s) (fun r => mnum r.a / q r.s r.a)) a = std l S t a := by
-  refine hajek_eq_std l S hS.1 hS.2 t a _ (fun s => Gen.iptw_weight stab t.str a n (p s) * (mnum a / q s a))
+    hajek l (iptwOmega stab t (fun _ => n) (fun r => p r.s) (fun r => mnum r.a / q r.s r.a)) a = std l S t.mem a := by
+  refine hajek_eq_std l S hS.1 hS.2 t.mem a _ (fun s => Gen.iptw_weight stab t.str a n (p s) * (mnum a / q s a))
     (iptwConst stab t a n * mnum a) (mul_ne_zero (iptwConst_ne_zero stab t a n hn0 hn1) hm) ?_ ?_ ?_
   · intro r _ ha _; simp [iptwOmega, ha]
   · intro s hs; exact (hpos.cell_pos hs a).ne'
@@ -52,7 +53,7 @@ theorem iptw_saturated (l : List (Row F)) (S : List Nat) (hS : Strata l S) (hpos
       · simp only [Bool.false_eq_true, if_false]; rw [sub_mul, one_mul, hp', hsplit]; ring
       · simp only [if_true]; exact hp'.symm
     have hbal := iptw_weight_balance stab t a n (p s) (W (inStratum s) l) hn0 hn1 hp0.ne' hp1.ne
-    have htgt : Ntgt t l s = tgtShare t (p s) (W (inStratum s) l) := by
+    have htgt : Ntgt t.mem l s = tgtShare t (p s) (W (inStratum s) l) := by
       cases t
       · simp only [Ntgt, tgtShare, Tgt.mem, Bool.and_true]
       · simp only [Ntgt, tgtShare, Tgt.mem]; rw [hp']
@@ -74,7 +75,7 @@ theorem iptw_measures_saturated (l : List (Row F)) (S : List Nat) (hS : Strata l
     (mnum : Bool → F) (hm : ∀ a, mnum a ≠ 0) :
     let ω := iptwOmega stab t (fun _ => n) (fun r => p r.s) (fun r => mnum r.a / q r.s r.a)
     let m1 := hajek l ω true; let m0 := hajek l ω false
-    let s1 := std l S t true; let s0 := std l S t false
+    let s1 := std l S t.mem true; let s0 := std l S t.mem false
     m1 - m0 = s1 - s0 ∧ m1 / m0 = s1 / s0 ∧ (m1 / (1 - m1)) / (m0 / (1 - m0)) = (s1 / (1 - s1)) / (s0 / (1 - s0)) := by
   intro ω m1 m0 s1 s0
   have e1 : m1 = s1 := iptw_saturated l S hS hpos stab t true n hn0 hn1 p hp q hq mnum (hm true)
@@ -86,29 +87,15 @@ theorem iptw_measures_saturated (l : List (Row F)) (S : List Nat) (hS : Strata l
     target rows: `predict_missing=True`.) -/
 theorem gformula_saturated (l : List (Row F)) (S : List Nat) (hS : Strata l S) (hpos : Positivity l S)
     (Q : Nat → Bool → F) (hQ : OutFit l S Q) (t : Tgt) (a : Bool) :
-    gformula l (fun r => Q r.s) t a = std l S t a := by
-  unfold gformula std
-  have hnum : sumIf (fun r => t.mem r) (fun r => r.w * Q r.s a) l
-      = sumBy (fun s => Ntgt t l s * cellMean l s a) S := by
-    rw [sumIf_regroup S hS.1 l hS.2]
-    apply sumBy_congr; intro s hs
-    rw [← hQ.eq_cellMean hs a (hpos.cell_pos hs a).ne']
-    unfold Ntgt W
-    rw [mul_comm, ← sumIf_mul_left]
-    apply sumIf_congr; intro r _
-    by_cases h : r.s = s
-    · subst h; simp [inStratum, mul_comm]
-    · simp [inStratum, h]
-  have hden : W (fun r => t.mem r) l = sumBy (fun s => Ntgt t l s) S := by
-    unfold W Ntgt W; rw [sumIf_regroup S hS.1 l hS.2]
-  rw [hnum, hden]
+    gformula l (fun r => Q r.s) t.mem a = std l S t.mem a := by
+  exact gformula_of_outfit l S hS hpos Q hQ t.mem a
 
 /-- **AIPTW** with both nuisance models saturated (no missing outcomes): the weighted means of the
     pseudo-outcomes are the standardized means over the whole population. -/
 theorem aipw_saturated (l : List (Row F)) (S : List Nat) (hS : Strata l S) (hpos : Positivity l S)
     (hobs : ∀ r ∈ l, r.obs = true) (Q : Nat → Bool → F) (hQ : OutFit l S Q) (p : Nat → F) (hp : PropFit l S p) :
-    aipw1 l (fun r => Q r.s) (fun r => p r.s) (fun r => 1 - p r.s) = std l S .pop true ∧
-    aipw0 l (fun r => Q r.s) (fun r => p r.s) (fun r => 1 - p r.s) = std l S .pop false := by
+    aipw1 l (fun r => Q r.s) (fun r => p r.s) (fun r => 1 - p r.s) = std l S Tgt.pop.mem true ∧
+    aipw0 l (fun r => Q r.s) (fun r => p r.s) (fun r => 1 - p r.s) = std l S Tgt.pop.mem false := by
   constructor
   · exact aipw1_of_outfit l S hS hpos hobs Q hQ p (fun s => 1 - p s) (fun s hs => (hp.mem_Ioo hpos hs).1.ne')
   · refine aipw0_of_outfit l S hS hpos hobs Q hQ p (fun s => 1 - p s) (fun s hs => ?_)
@@ -136,7 +123,7 @@ example : OutFit exRows [0, 1] (fun s a => if s = 0 then (if a then 1/3 else 1) 
   intro s hs a; simp only [List.mem_cons, List.not_mem_nil, or_false] at hs
   rcases hs with rfl | rfl <;> cases a <;> norm_num [exRows, W, WY, sumIf, sumBy, inCell]
 
-example : std exRows [0, 1] .pop true = (4 * (1/3) + 5 * 1) / 9 := by
+example : std exRows [0, 1] Tgt.pop.mem true = (4 * (1/3) + 5 * 1) / 9 := by
   norm_num [std, Ntgt, cellMean, exRows, W, WY, sumIf, sumBy, inCell, inStratum, Tgt.mem]
 
 end ZV.P01
